@@ -1,18 +1,26 @@
 module verifharness
 
-go 1.22
+go 1.22.0
+
+toolchain go1.23.5
 
 require github.com/deadsy/sdfx v0.0.0
+
+require (
+	golang.org/x/mod v0.22.0 // indirect
+	golang.org/x/sync v0.10.0 // indirect
+)
 
 require (
 	github.com/ajstarks/svgo v0.0.0-20211024235047-1546f124cd8b // indirect
 	github.com/dhconnelly/rtreego v1.2.0 // indirect
 	github.com/golang/freetype v0.0.0-20170609003504-e2365dfdc4a0 // indirect
-	github.com/hpinc/go3mf v0.24.2 // indirect
+	github.com/hpinc/go3mf v0.24.2
 	github.com/llgcode/draw2d v0.0.0-20240627062922-0ed1ff131195 // indirect
 	github.com/qmuntal/opc v0.7.12 // indirect
-	github.com/yofu/dxf v0.0.0-20240729034626-50c66fc03e0d // indirect
+	github.com/yofu/dxf v0.0.0-20240729034626-50c66fc03e0d
 	golang.org/x/image v0.22.0 // indirect
+	golang.org/x/tools v0.29.0
 )
 
 replace github.com/deadsy/sdfx => /repo
